@@ -13,8 +13,14 @@ pub fn generate(scenario: &str, seed: u64, tier: &str) -> Value {
     }
 }
 
-pub async fn custom_step(_run: &mut Run, _idx: usize, _kind: &str, _step: &Value) -> bool {
-    false
+pub async fn custom_step(run: &mut Run, _idx: usize, kind: &str, step: &Value) -> bool {
+    match kind {
+        "rbac_direct" => {
+            oracle::rbac_direct(run, step);
+            true
+        }
+        _ => false,
+    }
 }
 
 pub async fn run(scenario: &str, seed: u64, plan: Value) -> Value {
